@@ -36,95 +36,219 @@ def promote(a, b):
     return build.dtname(np.promote_types(build.DT[a], build.DT[b]))
 
 
-class ErrClass:
-    @staticmethod
-    def of(ex):
-        n = type(ex).__name__
-        if n in ("AmbiguousLookupError",):
-            return "ambiguous"
-        if n in ("NotFoundLookupError",):
-            return "not-found"
-        if n in ("NotImplementedError", "NumpyNotImplementedError"):
-            return "not-implemented"
-        return "error:" + n
+KIND = {"Dense": "dense", "Triangular": "tri", "Sparse": "sparse", "ScalarMul": "scalar", "Identity": "eye",
+        "Product": "prod", "Sum": "sum", "Kronecker": "kron", "KronSum": "kronsum", "BlockDiag": "bdiag",
+        "Diagonal": "diag", "Tridiagonal": "tridiag", "Transpose": "T", "Adjoint": "H", "Sliced": "slice",
+        "Permutation": "perm", "Concatenated": "concat", "Householder": "house", "LinearOperator": "generic"}
+ANN_ORDER = ["SelfAdjoint", "PSD", "Stiefel", "Unitary"]
+
+
+def ann_list(op):
+    names = {a.__name__ for a in op.annotations}
+    return [a for a in ANN_ORDER if a in names]
+
+
+def skel(op):
+    """kind tree of a real operator: [kind, annotations, children...]"""
+    name = type(op).__name__.split("[")[0]
+    k = KIND.get(name, "?" + name)
+    kids = []
+    if k in ("prod", "sum", "kron", "kronsum", "bdiag", "concat"):
+        kids = list(op.Ms)
+    elif k in ("T", "H", "slice"):
+        kids = [op.A]
+    return [k, ann_list(op)] + [skel(x) for x in kids]
+
+
+def py_ix(j):
+    if "i" in j:
+        return int(j["i"])
+    if "l" in j:
+        return list(j["l"])
+    return build.ix(j)
+
+
+def err_class(ex):
+    n = type(ex).__name__
+    if n == "IndexError":
+        return "index-error"
+    if n in ("NotImplementedError", "NumpyNotImplementedError"):
+        return "not-implemented"
+    if n == "AmbiguousLookupError":
+        return "ambiguous"
+    if n == "NotFoundLookupError":
+        return "not-found"
+    return "error:" + n
 
 
 def run_real(case):
-    """returns dict(value=nested [re,im] lists or None, shape, dtype, resdt) or dict(exc=…)"""
+    """observation of the real code: dict of canonical values, or {'err': class, 'msg': …}"""
     try:
+        import cola
         A = build.Builder().build(case["op"])
         call = case["call"]
-        out = {"shape": [int(A.shape[0]), int(A.shape[1])], "dtype": build.dtname(A.dtype),
-               "anns": sorted(a.__name__ for a in A.annotations)}
+        out = {"shape": [int(A.shape[0]), int(A.shape[1])], "dtype": build.dtname(A.dtype), "anns": ann_list(A)}
         if call == "info":
+            out["skel"] = skel(A)
             return out
-        if call == "matmat":
+        if call in ("matmat", "rmatmat"):
             X = build.arr(case["x"], case["xdt"], (len(case["x"]), len(case["x"][0]) if case["x"] else 0))
-            if case.get("vec"):
-                Y = A @ X[:, 0]
-                out["ndim"] = int(np.ndim(Y))
-                Y = np.asarray(Y).reshape(-1, 1)
+            if call == "matmat":
+                Y = A @ (X[:, 0] if case.get("vec") else X)
             else:
-                Y = A @ X
-        elif call == "rmatmat":
-            X = build.arr(case["x"], case["xdt"], (len(case["x"]), len(case["x"][0]) if case["x"] else 0))
+                Y = (X[0, :] if case.get("vec") else X) @ A
             if case.get("vec"):
-                Y = X[0, :] @ A
                 out["ndim"] = int(np.ndim(Y))
-                Y = np.asarray(Y).reshape(1, -1)
-            else:
-                Y = X @ A
+                Y = np.asarray(Y).reshape((-1, 1) if call == "matmat" else (1, -1))
+            Y = np.asarray(Y)
+            out["v"] = build.exact_mat(Y)
+            out["resdt"] = build.dtname(Y.dtype)
         elif call == "dense":
-            import cola
-            Y = A.to_dense() if not case.get("densify") else cola.densify(A)
+            Y = np.asarray(A.to_dense() if not case.get("densify") else cola.densify(A))
+            out["v"] = build.exact_mat(Y)
+            out["resdt"] = build.dtname(Y.dtype)
+        elif call == "tower":
+            B = A
+            for ch in case["tower"]:
+                B = B.T if ch == "T" else B.H
+            out["rshape"] = [int(B.shape[0]), int(B.shape[1])]
+            out["rdtype"] = build.dtname(B.dtype)
+            out["ranns"] = ann_list(B)
+            out["skel"] = skel(B)
+            out["v"] = build.exact_mat(np.asarray(B.to_dense()))
+        elif call == "getitem":
+            ids = [py_ix(j) for j in case["ids"]]
+            r = A[ids[0]] if len(ids) == 1 else A[tuple(ids)]
+            if isinstance(r, cola.ops.LinearOperator):
+                out["res"] = {"kind": "op", "rows": int(r.shape[0]), "cols": int(r.shape[1]),
+                              "value": build.exact_mat(np.asarray(r.to_dense())), "skel": skel(r), "anns": ann_list(r)}
+            else:
+                r = np.asarray(r)
+                if r.ndim == 0:
+                    out["res"] = {"kind": "scalar", "value": build.exact_mat(r.reshape(1))[0]}
+                elif r.ndim == 1:
+                    out["res"] = {"kind": "vec", "value": build.exact_mat(r)}
+                else:
+                    out["res"] = {"kind": "array%d" % r.ndim, "value": build.exact_mat(r)}
         else:
             raise ValueError(call)
-        Y = np.asarray(Y)
-        out["value"] = build.exact_mat(Y)
-        out["vshape"] = list(Y.shape)
-        out["resdt"] = build.dtname(Y.dtype)
         return out
     except Exception as ex:  # noqa: BLE001
-        return {"exc": ErrClass.of(ex), "msg": str(ex)[:200]}
+        return {"err": err_class(ex), "msg": str(ex)[:200]}
+
+
+def anns_true(anns, den):
+    """list of the reported annotations that are FALSE of the (exact, Gaussian-integer) matrix"""
+    M = np.array([[complex(z[0], z[1]) for z in row] for row in den], dtype=np.complex128)
+    if M.size == 0:
+        return []
+    r, c = M.shape
+    herm = r == c and np.array_equal(M, M.conj().T)
+    false = []
+    for a in anns:
+        if a == "SelfAdjoint":
+            ok = herm
+        elif a == "PSD":
+            ok = herm and np.linalg.eigvalsh(M).min() >= -1e-9 * max(1.0, np.abs(M).max())
+        elif a == "Stiefel":
+            ok = np.array_equal(M.conj().T @ M, np.eye(c))
+        elif a == "Unitary":
+            ok = r == c and np.array_equal(M.conj().T @ M, np.eye(c)) and np.array_equal(M @ M.conj().T, np.eye(r))
+        else:
+            ok = False
+        if not ok:
+            false.append(a)
+    return false
+
+
+def case_clauses(case, ans):
+    cl = list(ans.get("clauses", []))
+    if case["call"] == "getitem":
+        if len(case["ids"]) == 2 and all("a" in j for j in case["ids"]):
+            cl.append("getitem-array-pair-outer")
+        dims = [ans.get("rows", 0), ans.get("cols", 0)]
+        for pos, j in enumerate(case["ids"]):
+            if "a" in j and dims[pos] > 0:
+                w = [x % dims[pos] for x in j["a"]]
+                if len(set(w)) < len(w) and "sliced-repeated-index" not in cl:
+                    cl.append("sliced-repeated-index")
+    return cl
+
+
+def observations(case, ans, real):
+    """-> (real_obs, code_obs, spec_obs): dicts; real must equal code on all keys of code, and
+    code must equal spec on all keys of spec"""
+    call = case["call"]
+    if call in ("matmat", "rmatmat", "dense"):
+        want_dt = promote(ans["dtype"], case["xdt"]) if "xdt" in case else ans["dtype"]
+        code = {"v": ans["code"], "shape": [ans["rows"], ans["cols"]], "dtype": ans["dtype"], "resdt": want_dt}
+        if case.get("vec"):
+            code["ndim"] = 1
+        spec = {"v": ans["spec"], "shape": code["shape"], "resdt": want_dt}
+    elif call == "tower":
+        code = {"v": ans["code"], "rshape": [ans["rrows"], ans["rcols"]], "rdtype": ans["rdtype"],
+                "ranns": ans["ranns"], "skel": ans["skel"]}
+        spec = {"v": ans["spec"], "rshape": code["rshape"]}
+    elif call == "getitem":
+        c, sp = ans["code"], ans["spec"]
+        if c["kind"] == "err":
+            code = {"err": c["value"]}
+        else:
+            code = {"res": c}
+        if sp["kind"] == "err":
+            spec = {"err": sp["value"]}
+        else:
+            spec = {"res": {k: sp[k] for k in ("kind", "value", "rows", "cols") if k in sp}}
+    elif call == "info":
+        code = {"shape": [ans["rows"], ans["cols"]], "dtype": ans["dtype"], "anns": ans["anns"], "skel": ans["skel"],
+                "anns_true": anns_true(ans["anns"], ans["den"])}
+        spec = {"shape": code["shape"], "anns_true": []}
+        if "anns" in real:
+            real = dict(real)
+            real["anns_true"] = anns_true(real["anns"], ans["den"])
+    else:
+        raise ValueError(call)
+    return real, code, spec
+
+
+def sub_agree(a, b):
+    """b's keys (recursively for dict values) all present and equal in a"""
+    for k, v in b.items():
+        if k not in a:
+            return False, k
+        if isinstance(v, dict) and isinstance(a[k], dict):
+            ok, kk = sub_agree(a[k], v)
+            if not ok:
+                return False, f"{k}.{kk}"
+        elif a[k] != v:
+            return False, k
+    return True, None
 
 
 def classify(case, ans, real):
-    """-> (status, detail).  status in ok | inexact | known | violation | stale-model | skipped"""
+    """-> (status, detail).  status in ok | inexact | known? | violation | stale-model | skipped | driver-error"""
     if "error" in ans:
         return "driver-error", ans["error"]
     if not ans.get("wf", True):
         return "skipped", "not well-formed"
-    clauses = ans.get("clauses", [])
-    if case["call"] == "info":
-        return "ok", ""
-    code, spec = ans["code"], ans["spec"]
     if ans.get("absbound", 0) >= exact_bound(case):
         return "inexact", ""
-    problems = []
-    if "exc" in real:
-        problems.append(f"raised {real['exc']}: {real.get('msg', '')}")
-        rv = None
-    else:
-        rv = real["value"]
-        if real["shape"] != [ans["rows"], ans["cols"]]:
-            problems.append(f"shape {real['shape']} vs model {[ans['rows'], ans['cols']]}")
-        if real["dtype"] != ans["dtype"]:
-            problems.append(f"operator dtype {real['dtype']} vs model {ans['dtype']}")
-        want_dt = promote(ans["dtype"], case["xdt"]) if "xdt" in case else ans["dtype"]
-        if real["resdt"] != want_dt:
-            problems.append(f"result dtype {real['resdt']} vs promoted {want_dt}")
-        if case.get("vec") and real.get("ndim") != 1:
-            problems.append(f"1-D operand gave ndim {real.get('ndim')}")
-    if rv is not None and rv == code and not problems:
-        if code == spec:
+    real, code, spec = observations(case, ans, real)
+    rc, kc = sub_agree(real, code)
+    cs, ks = sub_agree(code, spec)
+    if rc:
+        if cs:
             return "ok", ""
-        return "known?", clauses
-    # real differs from the code model (or raised / wrong dtype / shape)
-    if rv is not None and rv == spec and not problems:
-        return "stale-model", "real = spec but the code model predicts a different value"
-    if rv is not None and rv != spec:
-        problems.append("value differs from the represented matrix computation")
-    return "violation", "; ".join(problems)
+        return "known?", case_clauses(case, ans)
+    rs, krs = sub_agree(real, spec)
+    if rs and cs:
+        return "stale-model", f"real agrees with the specification but not with the code model on '{kc}'"
+    if rs and not cs:
+        return "stale-model", f"real = spec but the code model (which mirrors a recorded defect) predicts otherwise on '{kc}'"
+    msg = f"real differs from the code model on '{kc}' and from the specification on '{krs}'"
+    if "err" in real:
+        msg += f" (raised {real['err']}: {real.get('msg', '')})"
+    return "violation", msg
 
 
 # ------------------------------------------------------------------------------------------ shrinking
@@ -253,10 +377,52 @@ class Engine:
             cs.append({"call": "dense", "op": s})
             if rng.random() < 0.3:
                 cs.append({"call": "dense", "op": s, "densify": True})
+        elif call == "tower":
+            for tw in rng.sample(["T", "H", "TT", "HH", "TH", "HT", "TTT", "HHH", "THT", "HTH", "TTH", "HHT"], 3):
+                cs.append({"call": "tower", "op": s, "tower": tw})
+        elif call == "info":
+            cs.append({"call": "info", "op": s})
+        elif call == "getitem":
+            cs += self.getitem_cases(s, a)
         for c in cs:
             c["id"] = self.nid
             self.nid += 1
         return cs
+
+    def getitem_cases(self, s, a):
+        rng = self.G.rng
+        r, c = a["rows"], a["cols"]
+        if r == 0 or c == 0:
+            return []
+        G = self.G
+
+        def rint(n):
+            return {"i": rng.randrange(-n, n)}
+
+        def rix(n, allow_arr=True):
+            want = rng.randint(0, n)
+            if allow_arr and rng.random() < 0.3:
+                return {"a": [rng.randrange(-n, n) for _ in range(rng.randint(1, n))]}
+            return {"s": rng.choice(G.slices_of_len(n, want))}
+
+        def rlist(n, k):
+            return {"l": [rng.randrange(-n, n) for _ in range(k)]}
+        forms = []
+        forms.append([rint(r)])
+        forms.append([rint(r), rint(c)])
+        forms.append([rint(r), rix(c)])
+        forms.append([rix(r), rint(c)])
+        forms.append([rix(r)])
+        forms.append([rix(r), rix(c)])
+        k = rng.randint(1, 3)
+        forms.append([rlist(r, k), rlist(c, k)])
+        forms.append([rint(r), rlist(c, k)])
+        forms.append([rlist(r, k), rint(c)])
+        if rng.random() < 0.15:   # out-of-range integer
+            forms.append([{"i": rng.choice([r, -r - 1])}])
+            forms.append([rix(r), {"i": rng.choice([c, -c - 1])}])
+        pick = rng.sample(forms, min(len(forms), 4))
+        return [{"call": "getitem", "op": s, "ids": f} for f in pick]
 
     def info_pass(self, trees):
         cases, keys = [], {}
@@ -303,9 +469,9 @@ class Engine:
             cls = "1xN" if r == 1 and cc > 1 else "Nx1" if cc == 1 and r > 1 else "wide8" if 8 * r < cc else "square" if r == cc else "tall" if r > cc else "wide"
             self.shape_hist[cls] += 1
         if st in ("ok", "known?") and nontrivial(c):
-            self.distinct.add(common.canon([c["op"], c["call"], c.get("x"), c.get("vec"), c.get("xdt")]))
+            self.distinct.add(common.canon([c["op"], c["call"], c.get("x"), c.get("vec"), c.get("xdt"), c.get("tower"), c.get("ids")]))
         if st == "ok" and len(self.samples) < 3 and nontrivial(c) and len(json.dumps(c)) < 900:
-            self.samples.append({"case": c, "result": a.get("code")})
+            self.samples.append({"case": c, "model_answer": {k: a.get(k) for k in ("code", "skel", "anns") if k in a}})
         if st == "known?":
             unknown = [cl for cl in det if cl not in self.known]
             if not det or unknown:
@@ -317,7 +483,7 @@ class Engine:
                     common.known_finding(ctx, cl, self.known[cl]["what"])
         elif st == "violation":
             small = self.shrink_case(c)
-            common.violation(ctx, {"case": small["case"], "expected_spec": small["ans"].get("spec"), "real": small["real"],
+            common.violation(ctx, {"case": small["case"], "expected_spec": small.get("ans", {}).get("spec"), "real": small["real"],
                                    "detail": small["detail"], "original_case": c,
                                    "replay_cmd": f"./check {ctx.prop} quick --replay <this file>"})
         elif st == "stale-model":
@@ -341,6 +507,13 @@ class Engine:
                     continue
                 ms = self.make_cases(x["op"], a, x["call"])
                 for m in ms:
+                    if c["call"] in ("tower", "getitem"):
+                        m2 = dict(m)
+                        for kk in ("tower", "ids"):
+                            if kk in c:
+                                m2[kk] = c[kk]
+                        full.append(m2)
+                        break
                     if bool(m.get("vec")) == bool(c.get("vec")) and bool(m.get("densify")) == bool(c.get("densify")):
                         full.append(m)
                         break
